@@ -10,8 +10,10 @@
 (* src/write/loc.rs                                                        *)
 (*   v2-4  pair format: all-ones marker + address for BaseAddress,         *)
 (*         offsets / addresses as address-size words, (0,0) terminator;    *)
-(*         InvalidRange / MissingBaseAddress / UnexpectedBaseAddress /     *)
-(*         ValueTooLarge as coded, have_base_address from the root DIE     *)
+(*         InvalidRange (empty range, first word equal to the all-ones     *)
+(*         marker, begin + length leaving u64, default location) /         *)
+(*         MissingBaseAddress / UnexpectedBaseAddress / ValueTooLarge as   *)
+(*         coded, have_base_address from the root DIE                      *)
 (*   v5    header + DW_RLE_x / DW_LLE_x entries, no validity checks.       *)
 (*                                                                         *)
 (* Meaning of a built list = Lists!Convert folded over its entries with    *)
@@ -67,18 +69,18 @@ WEntryOld(e, hb, enc, isLoc) ==
     CASE e.k = "base" ->
             out(WCat(<<WUdata(OnesSized(n), n, le), WUdata(e.a, n, le)>>), TRUE)
       [] e.k = "opair" ->
-            IF e.a = e.b THEN WErr("InvalidRange")
+            IF e.a = e.b \/ e.a = OnesSized(n) THEN WErr("InvalidRange")      \* empty, or would be a base selector
             ELSE IF ~hb THEN WErr("MissingBaseAddress")
             ELSE out(withData(WCat(<<WUdata(e.a, n, le), WUdata(e.b, n, le)>>)), hb)
       [] e.k = "se" ->
-            IF e.a = e.b THEN WErr("InvalidRange")
+            IF e.a = e.b \/ e.a = OnesSized(n) THEN WErr("InvalidRange")
             ELSE IF hb THEN WErr("UnexpectedBaseAddress")
             ELSE out(withData(WCat(<<WUdata(e.a, n, le), WUdata(e.b, n, le)>>)), hb)
       [] e.k = "slen" ->
-            \* `begin + length` is an unchecked u64 addition in the code
-            IF AddOverflows(e.a, e.b) THEN WErr("AddOverflow")
+            \* begin.checked_add(length): overflow is InvalidRange
+            IF AddOverflows(e.a, e.b) THEN WErr("InvalidRange")
             ELSE LET en == Add(e.a, e.b) IN
-                 IF e.a = en THEN WErr("InvalidRange")
+                 IF e.a = en \/ e.a = OnesSized(n) THEN WErr("InvalidRange")
                  ELSE IF hb THEN WErr("UnexpectedBaseAddress")
                  ELSE out(withData(WCat(<<WUdata(e.a, n, le), WUdata(en, n, le)>>)), hb)
       [] e.k = "defloc" -> WErr("InvalidRange")
